@@ -240,6 +240,9 @@ def set_term(interp, v):
     zs = getattr(v, "zset", None)
     if zs is not None:
         return zs
+    zb = getattr(v, "zset_builder", None)
+    if zb is not None:
+        return zb()
     if isinstance(v, VSet):
         # a set given by predicate / comprehension sites: name it by a fresh set constant with its membership as defining axiom
         # (a snapshot of the set's CURRENT content; not cached, the object may be mutated later)
@@ -279,10 +282,14 @@ def sym_set_op(interp, opn, a, b):
     ta, tb = set_term(interp, a), set_term(interp, b)
     if ta is not None and tb is not None:
         r = VSet(pred=None)
-        r.zset = {"BitAnd": z3.SetIntersect, "BitOr": z3.SetUnion, "Sub": z3.SetDifference}[opn](ta, tb)
+        # membership is stated element-wise (no set-algebra term: cvc5 does not read z3's set operators); the set TERM is only built
+        # when a cardinality is asked for (set_term)
+        ma = lambda x: z3.IsMember(x.term, ta)
+        mb = lambda x: z3.IsMember(x.term, tb)
+        r.pred = {"BitAnd": (lambda x: z3.And(ma(x), mb(x))), "BitOr": (lambda x: z3.Or(ma(x), mb(x))),
+                  "Sub": (lambda x: z3.And(ma(x), z3.Not(mb(x))))}[opn]
+        r.zset_builder = lambda: {"BitAnd": z3.SetIntersect, "BitOr": z3.SetUnion, "Sub": z3.SetDifference}[opn](ta, tb)
         r.elem_kind = getattr(a, "elem_kind", None)
-        zs = r.zset
-        r.pred = lambda x: z3.IsMember(x.term, zs)
         return r
     pa = lambda x: interp.contains(a, x)
     pb = lambda x: interp.contains(b, x)
@@ -368,7 +375,38 @@ def apply_uf(interp, fv, args, node):
 
 def sorted_of(interp, v, kwargs, node):
     """sorted(iterable, key=...) is a permutation of its elements: as a bag it is the same collection
-    (the order itself is not modelled: indexing / slicing the result is rejected)"""
+    (the order itself is not modelled: indexing / slicing the result is rejected).
+    Exception: sorted(<set of strings>) without key / reverse is modelled as an ORDERED sequence: strictly increasing in code-point
+    order, holding exactly the elements of the set."""
+    if isinstance(v, VSet) and not kwargs and getattr(v, "zset", None) is not None and isinstance(getattr(v, "elem_kind", None), T.StrT):
+        ctx = interp.ctx
+        zs = v.zset
+        if not hasattr(ctx, "memo"):
+            ctx.memo = {}
+        mkey = ("sorted", z3.simplify(zs).sexpr())
+        if mkey in ctx.memo:
+            m_, at_ = ctx.memo[mkey]
+            r = VList(SymSeq(m_, lambda k: VStr(at_(k)), T.Str), "list")
+            return interp.born(r)
+        m = ctx.fresh("nsorted", z3.IntSort())
+        at = ctx.fresh_fun("sorted_at", z3.IntSort(), z3.StringSort())
+        pos = ctx.fresh_fun("sorted_pos", z3.StringSort(), z3.IntSort())
+        a, b = z3.Int("a!so"), z3.Int("b!so")
+        y = z3.Const("y!so", z3.StringSort())
+        lab = "python:sorted(set of str) lists exactly the elements of the set in strictly increasing code-point order"
+        ctx.assume(m >= 0, lab)
+        ctx.assume(z3.ForAll([a, b], z3.Implies(z3.And(0 <= a, a < b, b < m), at(a) < at(b))), lab)
+        ctx.assume(z3.ForAll([a], z3.Implies(z3.And(0 <= a, a < m), z3.And(z3.IsMember(at(a), zs), pos(at(a)) == a)), patterns=[at(a)]), lab)
+        ctx.assume(z3.ForAll([y], z3.Implies(z3.IsMember(y, zs), z3.And(0 <= pos(y), pos(y) < m, at(pos(y)) == y)),
+                             patterns=[pos(y), z3.IsMember(y, zs)]), lab)
+        # order isomorphism, stated over positions (integer reasoning instead of transitivity of the string order)
+        u, w = z3.Const("u!so", z3.StringSort()), z3.Const("w!so", z3.StringSort())
+        ctx.assume(z3.ForAll([u, w], z3.Implies(z3.And(z3.IsMember(u, zs), z3.IsMember(w, zs)), (u < w) == (pos(u) < pos(w))),
+                             patterns=[z3.MultiPattern(pos(u), pos(w))]), lab)
+        ctx.memo[mkey] = (m, at)
+        r = VList(SymSeq(m, lambda k: VStr(at(k)), T.Str), "list")
+        r.sorted_of_set = (zs, at, pos)
+        return interp.born(r)
     if isinstance(v, (VList, VSet)) and getattr(v, "pred", None) is None and v.content is not None:
         bag = interp.to_bag(v.content)
         interp.ctx.assumed.add("python:sorted() returns a permutation of its argument (order not modelled)")
